@@ -291,12 +291,26 @@ package geom
 //@ func (b *Bounds) Intersection
 //@   prop C01, C04
 //@   mode xreal
-//@   opt boxcase
-//@   requires [nonnil] b != nil && p != nil
-//@   requires [boxcase] typeof(p) == *Bounds && p.(*Bounds) != nil
-//@   requires [nonan] noNaNBox(*b) && noNaNBox(*p.(*Bounds))
-//@   ensures [nil_iff_no_area] (result == nil) <==> !boxesShareArea(*b, *p.(*Bounds))
-//@   ensures [common_rect] result != nil ==> typeof(result) == *Bounds && fresh(result.(*Bounds)) && *result.(*Bounds) == Bounds(Point(goMax(b.Min.X, p.(*Bounds).Min.X), goMax(b.Min.Y, p.(*Bounds).Min.Y)), Point(goMin(b.Max.X, p.(*Bounds).Max.X), goMin(b.Max.Y, p.(*Bounds).Max.Y)))
+//@   requires [nonnil] b != nil && p != nil && (typeof(p) == *Bounds ==> p.(*Bounds) != nil)
+//@   ensures [nil_iff_no_area] typeof(p) == *Bounds && noNaNBox(*b) && noNaNBox(*p.(*Bounds)) ==> ((result == nil) <==> !boxesShareArea(*b, *p.(*Bounds)))
+//@   ensures [common_rect] typeof(p) == *Bounds && noNaNBox(*b) && noNaNBox(*p.(*Bounds)) && result != nil ==> typeof(result) == *Bounds && fresh(result.(*Bounds)) && *result.(*Bounds) == Bounds(Point(goMax(b.Min.X, p.(*Bounds).Min.X), goMax(b.Min.Y, p.(*Bounds).Min.Y)), Point(goMin(b.Max.X, p.(*Bounds).Max.X), goMin(b.Max.Y, p.(*Bounds).Max.Y)))
+//@   ensures [shortcuts] typeof(p) != *Bounds ==> result == nil || result == p || (typeof(result) == Polygon && regionG(result.(Polygon)) == pcOp(polyclip.INTERSECTION, rectRegion(*b), regionOf(p)))
+//@   modifies nothing
+
+//@ interface Geom.Bounds
+//@   prop C01, C04
+//@   requires [recv] nonNilBounds(self)
+//@   ensures [nonnil] result != nil
+//@   modifies nothing
+
+//@ func (b *Bounds) Within
+//@   prop C01, C02
+//@   mode xreal
+//@   requires [nonnil] b != nil && poly != nil && (typeof(poly) == *Bounds ==> poly.(*Bounds) != nil)
+//@   ensures [status] result == Outside || result == Inside || result == OnEdge
+//@   ensures [box_equal] typeof(poly) == *Bounds ==> (result == OnEdge <==> (b.Min.X == poly.(*Bounds).Min.X && b.Min.Y == poly.(*Bounds).Min.Y && b.Max.X == poly.(*Bounds).Max.X && b.Max.Y == poly.(*Bounds).Max.Y))
+//@   ensures [box_inside] typeof(poly) == *Bounds && result == Inside ==> b.Min.X >= poly.(*Bounds).Min.X && b.Min.Y >= poly.(*Bounds).Min.Y && b.Max.X <= poly.(*Bounds).Max.X && b.Max.Y <= poly.(*Bounds).Max.Y
+//@   ensures [box_outside] typeof(poly) == *Bounds && result == Outside ==> !(b.Min.X >= poly.(*Bounds).Min.X && b.Min.Y >= poly.(*Bounds).Min.Y && b.Max.X <= poly.(*Bounds).Max.X && b.Max.Y <= poly.(*Bounds).Max.Y)
 //@   modifies nothing
 
 //@ -- ------------------------------------------------------------ C15: Similar
@@ -677,7 +691,7 @@ package geom
 //@   requires [recv] typeof(self) == *Bounds ==> self.(*Bounds) != nil
 //@   ensures [polygon] typeof(self) == Polygon ==> len(result) == 1 && result[0] == self.(Polygon)
 //@   ensures [multi] typeof(self) == MultiPolygon ==> result == self.(MultiPolygon)
-//@   defines [region] prefR(self, 0) == rNone() && prefR(self, len(result)) == regionOf(self) && (forall k int :: 0 <= k && k < len(result) ==> prefR(self, k+1) == rCat(prefR(self, k), regionG(result[k])))
+//@   defines [region] prefR(self, 0) == rNone() && prefR(self, len(result)) == regionOf(self) && (forall k int :: {result[k]} 0 <= k && k < len(result) ==> prefR(self, k+1) == rCat(prefR(self, k), regionG(result[k])))
 //@   ensures [box] typeof(self) == *Bounds ==> len(result) == 1 && len(result[0]) == 1 && len(result[0][0]) == 4 && biteq(result[0][0][0], self.(*Bounds).Min) && biteq(result[0][0][1], Point(self.(*Bounds).Max.X, self.(*Bounds).Min.Y)) && biteq(result[0][0][2], self.(*Bounds).Max) && biteq(result[0][0][3], Point(self.(*Bounds).Min.X, self.(*Bounds).Max.Y))
 //@   modifies nothing
 
@@ -696,7 +710,8 @@ package geom
 //@   prop C01, C02
 //@   mode ufloat
 //@   requires [nonnil] b != nil
-//@   ensures [fresh] fresh(result)
+//@   ensures [fresh] fresh(result) && len(result) == 1 && len(result[0]) == 1 && len(result[0][0]) == 4
+//@   defines [rect_region] regionG(result[0]) == rectRegion(*b)
 //@   modifies nothing
 
 //@ func pointInPolygonal
@@ -1068,6 +1083,8 @@ package geom
 //@   prop C01, C14
 //@   mode ufloat
 //@   ensures [same] fresh(result) && len(result) == len(p) && (forall i int :: 0 <= i && i < len(p) ==> fresh(result[i]) && sameRing(p[i], result[i]))
+//@   ensures [region] pcRegion(result) == regionG(p)
+//@   using region_same_rings(p, result)
 //@   modifies nothing
 //@   loop 1 `for i, r := range p`
 //@     invariant [rings] 0 <= #1 && #1 <= len(p) && fresh(o) && len(o) == len(p) && (forall k int :: 0 <= k && k < #1 ==> fresh(o[k]) && sameRing(p[k], o[k]))
@@ -1079,6 +1096,8 @@ package geom
 //@   mode ufloat
 //@   requires [nonempty_contours] forall i int :: 0 <= i && i < len(p) ==> len(p[i]) >= 1
 //@   ensures [closed] fresh(result) && len(result) == len(p) && (forall i int :: 0 <= i && i < len(p) ==> fresh(result[i]) && closedCopy(p[i], result[i]))
+//@   ensures [region] regionG(result) == pcRegion(p)
+//@   using region_closed_rings(p, result)
 //@   modifies nothing
 //@   loop 1 `for i, r := range p`
 //@     invariant [rings] 0 <= #1 && #1 <= len(p) && fresh(pp) && len(pp) == len(p) && (forall k int :: 0 <= k && k < #1 ==> fresh(pp[k]) && closedCopy(p[k], pp[k]))
@@ -1105,7 +1124,7 @@ package geom
 //@   ensures regionG(a) == pcRegion(b)
 //@ axiom region_concat(a polyclip.Polygon, b polyclip.Polygon, c polyclip.Polygon)
 //@   trusted A-REGION: the even-odd region of a concatenated contour list is the symmetric combination rCat of the parts
-//@   requires len(c) == len(a) + len(b) && (forall i int :: 0 <= i && i < len(a) ==> c[i] == a[i]) && (forall i int :: 0 <= i && i < len(b) ==> c[len(a)+i] == b[i])
+//@   requires appendOf(c, a, b)
 //@   ensures pcRegion(c) == rCat(pcRegion(a), pcRegion(b))
 //@ axiom region_nil(a polyclip.Polygon)
 //@   trusted A-REGION: no contour, no region; rCat with the empty region is the identity
@@ -1117,13 +1136,136 @@ package geom
 //@   mode ufloat
 //@   requires [nonnil] p2 != nil && (typeof(p2) == *Bounds ==> p2.(*Bounds) != nil)
 //@   ensures [region] regionG(result) == pcOp(op, regionG(p), regionOf(p2))
-//@   using region_closed_rings(`pp.Construct(op, pp2)`, result)
+//@   ensures [rings_closed] forall i int :: 0 <= i && i < len(result) ==> len(result[i]) >= 2 && biteq(result[i][0], result[i][len(result[i])-1])
 //@   ensures [fresh] fresh(result)
 //@   modifies nothing
-//@   assert [subject_region] `range p2.Polygons()` pcRegion(pp) == regionG(p)
-//@   using region_same_rings(p, pp)
 //@   loop 1 `for _, pp2x := range p2.Polygons()`
-//@     invariant [fresh] fresh(pp2) && !sameObj(pp2, `p2.Polygons()`) && 0 <= #1 && #1 <= len(`p2.Polygons()`)
-//@     invariant [steps] forall k int :: 0 <= k && k < len(`p2.Polygons()`) ==> prefR(p2, k+1) == rCat(prefR(p2, k), regionG(`p2.Polygons()`[k]))
+//@     invariant [fresh] fresh(pp2) && !sameObj(pp2, `p2.Polygons()`) && 0 <= #1 && #1 <= len(`p2.Polygons()`) && pcRegion(pp) == regionG(p)
+//@     invariant [steps] forall k int :: {`p2.Polygons()`[k]} 0 <= k && k < len(`p2.Polygons()`) ==> prefR(p2, k+1) == rCat(prefR(p2, k), regionG(`p2.Polygons()`[k]))
 //@     invariant [members] pcRegion(pp2) == prefR(p2, #1)
-//@     using region_concat(pp2@pre, `pp2x.toPolyClip()`, pp2), region_same_rings(pp2x, `pp2x.toPolyClip()`), region_nil(pp2)
+//@     using region_concat(pp2@pre, `pp2x.toPolyClip()`, pp2), region_nil(pp2)
+
+//@ spec mpRegionTo(mp []Polygon, k int) int decreases k = k <= 0 ? rNone() : rCat(mpRegionTo(mp, k-1), regionG(mp[k-1]))
+//@ spec rectRegion(b Bounds) int
+
+//@ func (mp MultiPolygon) op
+//@   prop C01
+//@   mode ufloat
+//@   requires [nonnil] p2 != nil && (typeof(p2) == *Bounds ==> p2.(*Bounds) != nil)
+//@   ensures [region] typeof(result) == Polygon && regionG(result.(Polygon)) == pcOp(op, mpRegionTo(mp, len(mp)), regionOf(p2))
+//@   ensures [rings_closed] forall i int :: 0 <= i && i < len(result.(Polygon)) ==> len(result.(Polygon)[i]) >= 2 && biteq(result.(Polygon)[i][0], result.(Polygon)[i][len(result.(Polygon)[i])-1])
+//@   modifies nothing
+//@   loop 1 `for _, ppx := range mp`
+//@     invariant [subject] 0 <= #1 && #1 <= len(mp) && fresh(pp) && pcRegion(pp) == mpRegionTo(mp, #1)
+//@     using region_concat(pp@pre, `ppx.toPolyClip()`, pp), region_nil(pp)
+//@   loop 2 `for _, pp2x := range p2.Polygons()`
+//@     invariant [fresh] fresh(pp2) && !sameObj(pp2, `p2.Polygons()`) && 0 <= #2 && #2 <= len(`p2.Polygons()`) && pcRegion(pp) == mpRegionTo(mp, len(mp))
+//@     invariant [steps] forall k int :: {`p2.Polygons()`[k]} 0 <= k && k < len(`p2.Polygons()`) ==> prefR(p2, k+1) == rCat(prefR(p2, k), regionG(`p2.Polygons()`[k]))
+//@     invariant [members] pcRegion(pp2) == prefR(p2, #2)
+//@     using region_concat(pp2@pre, `pp2x.toPolyClip()`, pp2), region_nil(pp2)
+
+//@ func (p Polygon) Intersection
+//@   prop C01
+//@   mode ufloat
+//@   requires [nonnil] p2 != nil && (typeof(p2) == *Bounds ==> p2.(*Bounds) != nil)
+//@   ensures [region] typeof(result) == Polygon && regionG(result.(Polygon)) == pcOp(polyclip.INTERSECTION, regionG(p), regionOf(p2))
+//@   ensures [rings_closed] forall i int :: 0 <= i && i < len(result.(Polygon)) ==> len(result.(Polygon)[i]) >= 2 && biteq(result.(Polygon)[i][0], result.(Polygon)[i][len(result.(Polygon)[i])-1])
+//@   modifies nothing
+
+//@ func (mp MultiPolygon) Intersection
+//@   prop C01
+//@   mode ufloat
+//@   requires [nonnil] p2 != nil && (typeof(p2) == *Bounds ==> p2.(*Bounds) != nil)
+//@   ensures [region] typeof(result) == Polygon && regionG(result.(Polygon)) == pcOp(polyclip.INTERSECTION, mpRegionTo(mp, len(mp)), regionOf(p2))
+//@   modifies nothing
+
+//@ func (p Polygon) Union
+//@   prop C01
+//@   mode ufloat
+//@   requires [nonnil] p2 != nil && (typeof(p2) == *Bounds ==> p2.(*Bounds) != nil)
+//@   ensures [region] typeof(result) == Polygon && regionG(result.(Polygon)) == pcOp(polyclip.UNION, regionG(p), regionOf(p2))
+//@   ensures [rings_closed] forall i int :: 0 <= i && i < len(result.(Polygon)) ==> len(result.(Polygon)[i]) >= 2 && biteq(result.(Polygon)[i][0], result.(Polygon)[i][len(result.(Polygon)[i])-1])
+//@   modifies nothing
+
+//@ func (mp MultiPolygon) Union
+//@   prop C01
+//@   mode ufloat
+//@   requires [nonnil] p2 != nil && (typeof(p2) == *Bounds ==> p2.(*Bounds) != nil)
+//@   ensures [region] typeof(result) == Polygon && regionG(result.(Polygon)) == pcOp(polyclip.UNION, mpRegionTo(mp, len(mp)), regionOf(p2))
+//@   modifies nothing
+
+//@ func (p Polygon) XOr
+//@   prop C01
+//@   mode ufloat
+//@   requires [nonnil] p2 != nil && (typeof(p2) == *Bounds ==> p2.(*Bounds) != nil)
+//@   ensures [region] typeof(result) == Polygon && regionG(result.(Polygon)) == pcOp(polyclip.XOR, regionG(p), regionOf(p2))
+//@   ensures [rings_closed] forall i int :: 0 <= i && i < len(result.(Polygon)) ==> len(result.(Polygon)[i]) >= 2 && biteq(result.(Polygon)[i][0], result.(Polygon)[i][len(result.(Polygon)[i])-1])
+//@   modifies nothing
+
+//@ func (mp MultiPolygon) XOr
+//@   prop C01
+//@   mode ufloat
+//@   requires [nonnil] p2 != nil && (typeof(p2) == *Bounds ==> p2.(*Bounds) != nil)
+//@   ensures [region] typeof(result) == Polygon && regionG(result.(Polygon)) == pcOp(polyclip.XOR, mpRegionTo(mp, len(mp)), regionOf(p2))
+//@   modifies nothing
+
+//@ func (p Polygon) Difference
+//@   prop C01
+//@   mode ufloat
+//@   requires [nonnil] p2 != nil && (typeof(p2) == *Bounds ==> p2.(*Bounds) != nil)
+//@   ensures [region] typeof(result) == Polygon && regionG(result.(Polygon)) == pcOp(polyclip.DIFFERENCE, regionG(p), regionOf(p2))
+//@   ensures [rings_closed] forall i int :: 0 <= i && i < len(result.(Polygon)) ==> len(result.(Polygon)[i]) >= 2 && biteq(result.(Polygon)[i][0], result.(Polygon)[i][len(result.(Polygon)[i])-1])
+//@   modifies nothing
+
+//@ func (mp MultiPolygon) Difference
+//@   prop C01
+//@   mode ufloat
+//@   requires [nonnil] p2 != nil && (typeof(p2) == *Bounds ==> p2.(*Bounds) != nil)
+//@   ensures [region] typeof(result) == Polygon && regionG(result.(Polygon)) == pcOp(polyclip.DIFFERENCE, mpRegionTo(mp, len(mp)), regionOf(p2))
+//@   modifies nothing
+
+//@ func (b *Bounds) Union
+//@   prop C01
+//@   mode ufloat
+//@   requires [nonnil] b != nil && p != nil && (typeof(p) == *Bounds ==> p.(*Bounds) != nil)
+//@   ensures [region] typeof(result) == Polygon && regionG(result.(Polygon)) == pcOp(polyclip.UNION, rectRegion(*b), regionOf(p))
+//@   modifies nothing
+
+//@ func (b *Bounds) XOr
+//@   prop C01
+//@   mode ufloat
+//@   requires [nonnil] b != nil && p != nil && (typeof(p) == *Bounds ==> p.(*Bounds) != nil)
+//@   ensures [region] typeof(result) == Polygon && regionG(result.(Polygon)) == pcOp(polyclip.XOR, rectRegion(*b), regionOf(p))
+//@   modifies nothing
+
+//@ func (b *Bounds) Difference
+//@   prop C01
+//@   mode ufloat
+//@   requires [nonnil] b != nil && p != nil && (typeof(p) == *Bounds ==> p.(*Bounds) != nil)
+//@   ensures [region] typeof(result) == Polygon && regionG(result.(Polygon)) == pcOp(polyclip.DIFFERENCE, rectRegion(*b), regionOf(p))
+//@   modifies nothing
+
+//@ -- ------------------------------------------------------------ C14: Clip
+//@ func (l LineString) Clip
+//@   prop C14
+//@   mode ufloat
+//@   requires [nonnil] p != nil && (typeof(p) == *Bounds ==> p.(*Bounds) != nil)
+//@   ensures [type] typeof(result) == MultiLineString && fresh(result.(MultiLineString))
+//@   modifies nothing
+//@   loop 1 `for i, pp := range pTemp`
+//@     invariant [closed_rings] forall k int :: 0 <= k && k < len(pTemp) ==> len(pTemp[k]) >= 2
+//@     invariant [pieces] 0 <= #1 && #1 <= len(pTemp) && fresh(o) && !sameObj(o, pTemp) && len(o) == len(pTemp) && (forall k int :: 0 <= k && k < #1 ==> len(o[k]) == len(pTemp[k]) - 1 && sameObj(o[k], pTemp[k]))
+//@   assert [clipline] `o := make(MultiLineString, len(pTemp))` regionG(pTemp) == pcOp(polyclip.CLIPLINE, regionG(`Polygon{Path(l)}`), regionOf(p))
+//@   assert [one_contour_per_line] `pTemp := Polygon{Path(l)}.op(p, polyclip.CLIPLINE)` true
+
+//@ func (ml MultiLineString) Clip
+//@   prop C14
+//@   mode ufloat
+//@   requires [nonnil] p != nil && (typeof(p) == *Bounds ==> p.(*Bounds) != nil)
+//@   ensures [type] typeof(result) == MultiLineString && fresh(result.(MultiLineString))
+//@   modifies nothing
+//@   loop 1 `for i, l := range ml`
+//@     invariant [subject] 0 <= #1 && #1 <= len(ml) && fresh(pTemp) && len(pTemp) == len(ml) && (forall k int :: 0 <= k && k < #1 ==> pTemp[k] == ml[k])
+//@   loop 2 `for i, pp := range pTemp`
+//@     invariant [closed_rings] forall k int :: 0 <= k && k < len(pTemp) ==> len(pTemp[k]) >= 2
+//@     invariant [pieces] 0 <= #2 && #2 <= len(pTemp) && fresh(o) && !sameObj(o, pTemp) && len(o) == len(pTemp) && (forall k int :: 0 <= k && k < #2 ==> len(o[k]) == len(pTemp[k]) - 1 && sameObj(o[k], pTemp[k]))
